@@ -138,16 +138,20 @@ type config struct {
 }
 
 type Exec struct {
-	ctx    context.Context
-	dserv  ipld.DAGService
-	d      uio.Directory
-	cfg    config  // configuration in force (new + set* ops), used by `fresh` and the rule monitor
-	oracle map[string]string // name -> cid : the property's own map model
-	table  map[string][]byte // name -> hash for table-hash cases
+	ctx     context.Context
+	dserv   ipld.DAGService
+	d       uio.Directory
+	cfg     config            // configuration in force (new + set* ops), used by `fresh` and the rule monitor
+	oracle  map[string]string // name -> cid : the property's own map model
+	table   map[string][]byte // name -> hash for table-hash cases
 	restore func()
-	o      *vh.Out
+	o       *vh.Out
 	// C16 monitors enabled
 	Rule bool
+	// statistics for the non-triviality rule
+	mutOK   int
+	findHit bool
+	bigList bool
 }
 
 func mtimeOf(sec int64, nsec int) time.Time {
@@ -276,6 +280,9 @@ func fmtEntries(es []entry, sorted bool) string {
 
 // checkListing is the map-property monitor for the enumeration APIs.
 func (e *Exec) checkListing(api string, es []entry) {
+	if len(es) >= 2 {
+		e.bigList = true
+	}
 	if len(es) != len(e.oracle) {
 		e.o.Fail("listing-"+api, "%s returned %d entries, map has %d", api, len(es), len(e.oracle))
 		return
@@ -314,6 +321,11 @@ func Run(c vh.Case, o *vh.Out, rule bool) {
 	}()
 	for _, line := range c.Ops {
 		e.step(strings.Fields(line))
+	}
+	// C15's rule (C16 marks its cases in `fresh`): at least four successful mutations, a look-up that
+	// hit and a listing of two or more entries
+	if !rule && e.mutOK >= 4 && e.findHit && e.bigList {
+		o.Nontrivial()
 	}
 }
 
@@ -395,6 +407,7 @@ func (e *Exec) step(f []string) {
 		r := errTok(err)
 		_, existed := e.oracle[name]
 		if err == nil {
+			e.mutOK++
 			e.oracle[name] = pn.Cid
 			if existed {
 				o.Kind("add-replace")
@@ -404,7 +417,10 @@ func (e *Exec) step(f []string) {
 		} else {
 			o.Kind("add-" + r)
 			// map property: adding can only fail for the documented reasons
-			if !(r == "maxlinks" && kb == "basic" && !existed) && r != "toodeep" {
+			switch {
+			case r == "maxlinks" && kb == "hamt":
+				o.Fail("hamt-switch-maxlinks", "AddChild(%q) on a HAMT directory failed with maxLinks reached (aborted HAMT->basic conversion)", name)
+			case !(r == "maxlinks" && kb == "basic" && !existed) && r != "toodeep":
 				o.Fail("add-error", "AddChild(%q) failed: %s", name, r)
 			}
 		}
@@ -422,12 +438,15 @@ func (e *Exec) step(f []string) {
 		r := errTok(err)
 		_, existed := e.oracle[name]
 		switch {
+		case r == "maxlinks" && kb == "hamt":
+			o.Fail("hamt-switch-maxlinks", "RemoveChild(%q) on a HAMT directory failed with maxLinks reached (aborted HAMT->basic conversion)", name)
 		case existed && err != nil:
 			o.Fail("rm-existing-"+r, "RemoveChild(%q) of an existing name failed: %s", name, r)
 		case !existed && r != "notfound":
 			o.Fail("rm-missing-"+r, "RemoveChild(%q) of a missing name returned %s", name, r)
 		}
 		if err == nil {
+			e.mutOK++
 			delete(e.oracle, name)
 			o.Kind("rm-hit")
 		} else {
@@ -455,6 +474,7 @@ func (e *Exec) step(f []string) {
 			o.Fail("find", "Find(%q)=%s, map has %q", name, nd.Cid(), want)
 		}
 		o.Kind("find-hit")
+		e.findHit = true
 		o.Emit("%s", nd.Cid().String())
 	case "list":
 		if !e.need() {
@@ -703,7 +723,16 @@ func (e *Exec) after(op, kindBefore string, before settings) {
 		}
 	}
 	if want && kind == "basic" {
-		o.Fail("rule-basic-above", "%s: basic although the rule says sharded (size %d thr %d count %d maxlinks %d mode %d)", op, e.ruleSize(mode), thr, len(e.oracle), ml, mode)
+		sig := "rule-basic-above"
+		// a basic directory at most one index prefix (+ varint steps) over the threshold: the stored-name surplus
+		fan := e.d.GetMaxHAMTFanout()
+		if !validWidth(fan) {
+			fan = uio.DefaultShardWidth
+		}
+		if ex := e.ruleSize(mode) - thr; mode != uio.SizeEstimationDisabled && !(ml > 0 && len(e.oracle) > ml) && ex <= len(fmt.Sprintf("%X", fan-1))+2 {
+			sig = "rule-basic-above-by-prefix"
+		}
+		o.Fail(sig, "%s: basic although the rule says sharded (size %d thr %d count %d maxlinks %d mode %d)", op, e.ruleSize(mode), thr, len(e.oracle), ml, mode)
 	}
 	if !want && kind == "hamt" && thr != 0 {
 		o.Fail("rule-hamt-below", "%s: sharded although the rule says basic (size %d thr %d count %d maxlinks %d mode %d)", op, e.ruleSize(mode), thr, len(e.oracle), ml, mode)
